@@ -733,6 +733,34 @@ def main_io(write=True):
     return _regen(generate_io, GEN_IO, SNAP_IO, write)
 
 
+HEADER_BASE = """/-
+  GENERATED by harness/py2lean.py from the source text of /repo on every check run — do not edit.
+  `check_coordinates` and the validation part of `check_fit_input` (base/utils.py), statement by statement, with every array represented by
+  its shape; Props/C20.lean proves them equal to the model's decision over shapes.
+-/
+import VerdeModel.Model.Lifecycle
+namespace Verde.Gen
+open Verde
+
+"""
+GEN_BASE = os.path.join(VERIF, "lean", "VerdeModel", "Gen", "Base.lean")
+SNAP_BASE = os.path.join(VERIF, "lean", "VerdeModel", "GenSnapshot", "Base.lean.txt")
+
+
+def generate_base():
+    parts = [
+        translate_do("verde/base/utils.py", "check_coordinates", "checkCoordinates", [("coordinates", "coordinates", "shapelist")], "shapelist"),
+        translate_do("verde/base/utils.py", "check_fit_input", "checkFitInput",
+                     [("coordinates", "coordinates", "shapelist"), ("data", "data", "shapelist"), ("weights", "weights", "optshapelist")], "unit",
+                     drop_assign=("weights", "data"), drop_flags=("unpack",), ignore_return=True, call_assign={"check_coordinates": "Gen.checkCoordinates"}),
+    ]
+    return HEADER_BASE + "\n".join(parts) + "\nend Verde.Gen\n"
+
+
+def main_base(write=True):
+    return _regen(generate_base, GEN_BASE, SNAP_BASE, write)
+
+
 HEADER_TREND = """/-
   GENERATED by harness/py2lean.py from the source text of /repo on every check run — do not edit.
   `polynomial_power_combinations` (trend.py); Props/C03.lean proves it equal to the model's explicit monomial order.
@@ -961,7 +989,7 @@ LEAN_TY = {"rat": "Rat", "int": "Int", "bool": "Bool", "str": "String", "optint"
            "ratlist": "List Rat", "optratlist": "List (Option Rat)", "intpair": "Int × Int", "optintpair": "Option Int × Option Int",
            "opt:intpair": "Option (Int × Int)", "opt:ratlist": "Option (List Rat)", "ratlistpair": "List Rat × List Rat",
            "ratquad": "Rat × Rat × Rat × Rat", "opt:ratquad": "Option (Rat × Rat × Rat × Rat)", "file": "List SLine", "intlist": "List Int",
-           "unit": "Unit", "surferheader": "String × List Int × (Rat × Rat × Rat × Rat) × List Rat"}
+           "unit": "Unit", "shapelist": "List Shape", "optshapelist": "List (Option Shape)", "shape": "Shape", "optshape": "Option Shape", "surferheader": "String × List Int × (Rat × Rat × Rat × Rat) × List Rat"}
 QUAD_PROJ = [".1", ".2.1", ".2.2.1", ".2.2.2"]
 
 
@@ -1002,7 +1030,7 @@ def _const_int(n, consts=None):
 
 def _inner(ty):
     """Type of the value inside an optional."""
-    return {"optint": "int", "optrat": "rat"}.get(ty, ty[4:] if ty.startswith("opt:") else None)
+    return {"optint": "int", "optrat": "rat", "optshape": "shape"}.get(ty, ty[4:] if ty.startswith("opt:") else None)
 
 
 def _join(a, b):
@@ -1055,6 +1083,11 @@ class DoT:
     IDENTITY_CALLS = ("check_coordinates",)      # `x = f(x)[:2]`: validation that returns its argument (same shapes or ValueError; shapes are equal here by typing)
     IGNORED_CALLS = ("_check_rolling_window_overlap",)      # warn-only helpers
 
+    drop_assign = ()       # names whose (re)assignments only shape values, not validation: skipped
+    drop_flags = ()        # `if <flag>:` blocks that only shape the returned values: skipped
+    ignore_return = False
+    call_assign = {}       # x = f(x) where f is a translated validation returning its argument: name -> Lean function
+
     def __init__(self, env, counter=None):
         self.env = dict(env)
         self.counter = counter if counter is not None else [0]
@@ -1066,7 +1099,35 @@ class DoT:
 
     def sub(self, env=None):
         d = DoT(self.env if env is None else env, self.counter)
+        d.drop_assign, d.drop_flags, d.ignore_return, d.call_assign = self.drop_assign, self.drop_flags, self.ignore_return, self.call_assign
         return d
+
+    def quantifier(self, n):
+        """any(...) / all(...) over a generator expression -> (pre-lines, Bool variable).  Python evaluates the element conditions one
+        by one and stops at the first decisive one, so an element whose evaluation raises matters only if it is reached:
+        `List.anyM` / `List.allM` in `Except Err` have exactly that behaviour."""
+        if not (isinstance(n, ast.Call) and getattr(n.func, "id", None) in ("any", "all") and len(n.args) == 1 and isinstance(n.args[0], ast.GeneratorExp)):
+            return None
+        g = n.args[0]
+        if any(c.ifs or not isinstance(c.target, ast.Name) for c in g.generators) or len(g.generators) > 2:
+            _fail(n, "generator form")
+        fn = "anyM" if n.func.id == "any" else "allM"
+        sub = self.sub()
+        iters = []
+        for c in g.generators:
+            p, t, ty = sub.ex(c.iter)
+            if p or ty not in ("shapelist", "optshapelist"):
+                _fail(n, "generator over something other than a list of arrays")
+            sub.env[c.target.id] = (c.target.id, "shape" if ty == "shapelist" else "optshape")
+            iters.append((t, c.target.id))
+        pre, prop = sub.cond(g.elt)
+        body = "do " + "; ".join(pre + [f"pure (decide ({prop}))"])
+        for t, var in reversed(iters):
+            body = f"{t}.{fn if (t, var) == iters[0] or True else fn} (fun {var} => {body})"
+            if (t, var) != iters[0]:
+                body = "do " + body if not body.startswith("do ") else body
+        r = self.fresh()
+        return [f"let {r} ← {body}"], r
 
     def num(self, pre, tx, ty):
         """A value used as a number: optionals are unwrapped (`None` used as a number is a TypeError)."""
@@ -1110,6 +1171,26 @@ class DoT:
         return p + [f"let {r} ← floatsE {t}"], r, "ratlist"
 
     def ex(self, n):
+        if isinstance(n, ast.Attribute) and n.attr in ("shape", "size") and isinstance(n.value, (ast.Name, ast.Subscript)):
+            p, t, ty = self.ex(n.value)
+            if ty == "shape":
+                return p, (t if n.attr == "shape" else f"(shapeSize {t})"), ("shape" if n.attr == "shape" else "nat")
+            if ty == "optshape" and n.attr == "size":
+                r = self.fresh()
+                return p + [f"let {r} ← sizeOpt {t}"], r, "nat"
+        if isinstance(n, ast.ListComp) and len(n.generators) == 1 and not n.generators[0].ifs and isinstance(n.elt, ast.Attribute) and n.elt.attr == "shape" \
+                and isinstance(n.elt.value, ast.Name) and isinstance(n.generators[0].target, ast.Name) and n.elt.value.id == n.generators[0].target.id:
+            p, t, ty = self.ex(n.generators[0].iter)
+            if ty == "shapelist":
+                return p, t, "shapelist"      # an array is represented by its shape
+        if isinstance(n, ast.Subscript) and _const_int(n.slice) is not None and _const_int(n.slice) >= 0 and isinstance(n.value, ast.Name) \
+                and self.env.get(n.value.id, ("", ""))[1] == "shapelist":
+            r = self.fresh()
+            return [f"let {r} ← idxS {self.env[n.value.id][0]} {_const_int(n.slice)}"], r, "shape"
+        if isinstance(n, ast.Call) and getattr(n.func, "id", None) == "len" and len(n.args) == 1:
+            p, t, ty = self.ex(n.args[0])
+            if ty in ("shapelist", "optshapelist", "ratlist", "optratlist", "intlist"):
+                return p, f"{t}.length", "nat"
         tc = self.tokens_comp(n)
         if tc is not None:
             return tc
@@ -1315,10 +1396,21 @@ class DoT:
             p, t, ty = self.ex(n)
             if ty == "bool":
                 return p, f"{t} = true"
+        q = self.quantifier(n)
+        if q is not None:
+            return q[0], f"{q[1]} = true"
         if isinstance(n, ast.UnaryOp) and isinstance(n.op, ast.Not):
+            q = self.quantifier(n.operand)
+            if q is not None:
+                return q[0], f"{q[1]} = false"
             p, t, ty = self.ex(n.operand)
             if ty == "bool":
                 return p, f"{t} = false"
+        if isinstance(n, ast.Compare) and len(n.ops) == 1 and isinstance(n.ops[0], (ast.Eq, ast.NotEq)):
+            p1, a, ta = self.ex(n.left)
+            p2, b, tb = self.ex(n.comparators[0])
+            if ta == tb and ta in ("shape", "nat"):
+                return p1 + p2, f"{a} {'=' if isinstance(n.ops[0], ast.Eq) else '≠'} {b}"
         if isinstance(n, ast.Compare) and len(n.ops) == 1 and isinstance(n.ops[0], (ast.Eq, ast.NotEq)):
             p1, a, ta = self.ex(n.left)
             p2, b, tb = self.ex(n.comparators[0])
@@ -1327,6 +1419,8 @@ class DoT:
         if isinstance(n, ast.Compare) and len(n.ops) == 1 and type(n.ops[0]) in (ast.Lt, ast.Gt, ast.LtE, ast.GtE):
             p1, a, ta = self.ex(n.left)
             p2, b, tb = self.ex(n.comparators[0])
+            if ta == tb == "nat":
+                return p1 + p2, f"{a} {({ast.Lt: '<', ast.Gt: '>', ast.LtE: '≤', ast.GtE: '≥'})[type(n.ops[0])]} {b}"
             if ta in ("rat", "num", "int") and tb in ("rat", "num", "int") and "rat" in (ta, tb):
                 sym = {ast.Lt: "<", ast.Gt: ">", ast.LtE: "≤", ast.GtE: "≥"}[type(n.ops[0])]
                 ca = a if ta != "int" else f"(({a} : Int) : Rat)"
@@ -1377,6 +1471,32 @@ class DoT:
                 continue
             if isinstance(st, ast.Expr) and isinstance(st.value, ast.Call) and getattr(st.value.func, "id", None) in self.IGNORED_CALLS:
                 continue
+            if isinstance(st, ast.Assign) and len(st.targets) == 1 and isinstance(st.targets[0], ast.Name) and isinstance(st.value, ast.Call) \
+                    and len(st.value.args) == 1 and getattr(st.value.args[0], "id", None) == st.targets[0].id and not st.value.keywords:
+                fname = getattr(st.value.func, "id", None)
+                if fname in self.call_assign:
+                    v = self.env[st.targets[0].id]
+                    lines.append(f"let {v[0]} ← {self.call_assign[fname]} {v[0]}")
+                    continue
+                if fname in self.IDENTITY_CALLS or fname == "check_data":      # check_data: wraps a bare array in a tuple (tuple-ness is in the typing here)
+                    continue
+            if isinstance(st, ast.Assign) and all(isinstance(t, ast.Name) and t.id in self.drop_assign for t in st.targets):
+                continue
+            if isinstance(st, ast.If) and isinstance(st.test, ast.Name) and st.test.id in self.drop_flags:
+                continue
+            if isinstance(st, ast.Return) and self.ignore_return:
+                continue
+            if isinstance(st, ast.If) and not [v for v in self.assigned([st]) if v in self.env and v not in self.drop_assign]:
+                # a block that only validates (nested `if ...: raise`): no visible assignment
+                body = [b for b in st.body if not (isinstance(b, ast.Assign) and all(isinstance(t, ast.Name) and t.id in self.drop_assign for t in b.targets))]
+                other = [b for b in st.orelse if not (isinstance(b, ast.Assign) and all(isinstance(t, ast.Name) and t.id in self.drop_assign for t in b.targets))]
+                if not (len(body) == 1 and isinstance(body[0], ast.Raise) and not other):
+                    p, c = self.cond(st.test)
+                    inner = self.sub().block(body) or ["pure ()"]
+                    lines += p + [f"if {c} then"] + ["  " + ln for ln in inner]
+                    if other:
+                        lines += ["else"] + ["  " + ln for ln in (self.sub().block(other) or ["pure ()"])]
+                    continue
             if isinstance(st, ast.Assign) and len(st.targets) == 1 and isinstance(st.targets[0], ast.Name) and isinstance(st.value, ast.ListComp) \
                     and len(st.value.generators) == 1 and not st.value.generators[0].ifs and isinstance(st.value.generators[0].iter, ast.Call) \
                     and getattr(st.value.generators[0].iter.func, "id", None) == "enumerate" and isinstance(st.value.generators[0].target, ast.Tuple):
@@ -1546,11 +1666,14 @@ class DoT:
         return [f"let {lhs} ← (do"] + body + ["  )"]
 
 
-def translate_do(path, name, lean_name, params, rettype, stop_at=None):
-    """stop_at: translate the statements up to and including the first assignment to this name and return its value."""
+def translate_do(path, name, lean_name, params, rettype, stop_at=None, **config):
+    """stop_at: translate the statements up to and including the first assignment to this name and return its value.
+    config: drop_assign / drop_flags / ignore_return / call_assign (see DoT)."""
     src = open(os.path.join(REPO, path)).read()
     fn = find_func(ast.parse(src), name)
     d = DoT({py: (lean, ty) for py, lean, ty in params})
+    for k, v in config.items():
+        setattr(d, k, v)
     body = fn.body
     if stop_at is not None:
         cut = [i for i, st in enumerate(body) if isinstance(st, ast.Assign) and any(isinstance(t, ast.Name) and t.id == stop_at for t in st.targets)]
